@@ -61,13 +61,16 @@ def next_record(sim):
     g = sim.gen
     r = g.r
     fns = seeded_callables(sim.xgi)
-    fn = r.choice(fns)
+    # (spectral_clustering is the one seeded callable with an eigensolver and an iterative
+    # clustering inside: three times the weight of the others)
+    fn = r.choice(fns + ["spectral_clustering"] * 2 if "spectral_clustering" in fns else fns)
     seed = 0 if r.random() < 0.15 else r.randrange(1 << 16)  # 0 is a seed too (falsy)
     rec = {"uid": g.next_uid(), "op": "seeded_pair", "fn": fn, "seed": seed,
            "argseed": r.randrange(1 << 30),
            "perturb": [[r.choice(PERTURB), r.randrange(1 << 16)] for _ in range(r.randint(0, 6))]}
     # "regardless of earlier calls to the same function": other consumers also run *before* the
     # first call (e.g. the same arguments with another seed, which may fill a cache)
+    rec["mutate_result"] = r.random() < 0.2
     rec["pre"] = [[r.choice(["same_args_other_seed", "same_args_other_seed", "same_fn_other_seed", "py_draw",
                              "np_reseed"]), r.randrange(1 << 16)] for _ in range(r.choice([0, 0, 1, 2]))]
     return rec
@@ -101,13 +104,18 @@ def make_args(xgi, fn, argseed):
             # connected, no isolated nodes (the Laplacian needs it)
             H = xgi.Hypergraph([[i, (i + 1) % n] for i in range(n)] + edges)
             kw = {"k": r.choice([2, 3])}
-            if r.random() < 0.4:
+            if r.random() < 0.6:
                 # highly symmetric networks have degenerate spectra: the eigensolver restarts
                 from itertools import combinations
                 n = r.randint(4, 6)
-                shape = r.choice(["complete2", "complete23", "ring"])
+                shape = r.choice(["complete2", "complete23", "ring", "blocks", "blocks", "blocks"])
                 if shape == "ring":
                     H = xgi.Hypergraph([[i, (i + 1) % n] for i in range(n)])
+                elif shape == "blocks":
+                    # disjoint identical blocks: nodes of one block have identical embedding rows
+                    size, nb = r.choice([2, 3, 3, 4]), r.choice([2, 2, 3])
+                    H = xgi.Hypergraph([list(range(b * size, (b + 1) * size)) for b in range(nb)])
+                    kw = {"k": r.choice([2, min(3, nb)])}
                 else:
                     es = [list(c) for c in combinations(range(n), 2)]
                     if shape == "complete23":
@@ -147,9 +155,30 @@ def call(xgi, fn, argseed, seed):
             else:
                 H, kw = spec[1]
                 out = getattr(xgi, fn)(H, seed=seed, **kw)
+            _LAST["out"] = out
             return "ok", canon_result(out)
         except Exception as ex:  # noqa
             return "raise", f"{type(ex).__name__}: {ex}"
+
+
+_LAST = {}
+
+
+def mutate_result(out):
+    """the caller owns what a seeded function returned: change it in place"""
+    with warnings.catch_warnings():
+        warnings.simplefilter("ignore")
+        try:
+            if hasattr(out, "remove_node"):
+                ns = list(out.nodes)
+                if ns:
+                    out.remove_node(ns[0])
+            elif isinstance(out, dict) and out:
+                out.pop(next(iter(out)))
+            elif isinstance(out, np.ndarray) and out.size:
+                out.flat[0] = -7.0
+        except Exception:
+            pass
 
 
 def perturb(sim, kind, val, fn, argseed):
@@ -214,9 +243,14 @@ def do_pair(sim, rec):
     if st1 == "UNCOVERED":
         cov[fn + "|uncovered"] = cov.get(fn + "|uncovered", 0) + 1
         return None
+    if rec.get("mutate_result") and st1 == "ok":
+        mutate_result(_LAST.pop("out", None))
+        w.stats["first_result_modified_between_calls"] += 1
+    _LAST.clear()
     for kind, val in rec["perturb"]:
         perturb(sim, kind, val, fn, rec["argseed"])
     st2, r2 = call(xgi, fn, rec["argseed"], rec["seed"])
+    _LAST.clear()
     cov[fn + "|" + st1] = cov.get(fn + "|" + st1, 0) + 1
     w.stats["op:seeded_pair." + fn] += 1
     w.stats["perturbations_between_calls"] += len(rec["perturb"])
